@@ -172,6 +172,7 @@ def run_argv(run, shard, seed, tier, trace):
         return (["cargo", "+nightly", "miri", "run", "--offline", "-q", "--bin", run.engine, "--target-dir",
                  target_dir("miri"), "--"] + common, env)
     if v in MEMCHECK:
+        env["VKIT_NO_POISON"] = "1"
         return (["valgrind", "--tool=memcheck", "--error-exitcode=97", "--leak-check=full", "--errors-for-leak-kinds=definite",
                  "--show-leak-kinds=definite", "-q", exe_path(run.engine, v)] + common, env)
     if v in ("asan", "fhex-asan"):
